@@ -1142,6 +1142,38 @@ func corpus(out *bufio.Writer) {
 	emit(out, "unsep:?", 1, geom.Polygon{{P(0, 0)}, {P(0.5, 0)}, {P(0.5, 0)}}, geom.Polygon{{P(0.25, 0)}, {P(0.75, 0)}, {P(1.25, 0)}})
 }
 
+// nil interface values as operands and as members of collections (outside the property's eight
+// types): what the code does — panic exactly when the loops reach a nil RECEIVER member, `false`
+// for a nil argument — is compared with the fault model simE of Model.lean.
+func nilCases(out *bufio.Writer, g *gctx) {
+	type GC = geom.GeometryCollection
+	mk := func() []geom.Geom {
+		var ms []geom.Geom
+		for k := 0; k < 8; k++ {
+			ms = append(ms, g.base(k, 1).geom())
+		}
+		return ms
+	}
+	ms := mk()
+	e := func(a, b geom.Geom) { // not through emit: no conc- copies of these lines
+		fmt.Fprintf(out, "sim nilm:? %s %s | %s\n", vproto.F2H(g.tol), vproto.GeomToks(a), vproto.GeomToks(b))
+	}
+	for _, m := range ms {
+		e(nil, m) // nil receiver panics; nil argument: default branch of the type switch
+		e(GC{m}, GC{nil})
+		e(GC{m, nil}, GC{nil, m})
+		e(GC{nil, m}, GC{m, nil})
+		e(GC{m, nil}, GC{m})         // count check answers before any member is touched
+		e(GC{ms[0], nil}, GC{m, ms[1]}) // an earlier member may be unmatched before the nil is reached
+		e(GC{GC{nil}}, GC{GC{m}})
+		e(GC{m, GC{m, nil}}, GC{GC{nil, m}, m})
+	}
+	e(nil, nil)
+	e(GC{nil}, GC{nil})
+	e(GC{nil, nil}, GC{nil, nil})
+	e(GC{GC{}, nil}, GC{nil, GC{}})
+}
+
 func gen(seed uint64, tier string) {
 	out := bufio.NewWriterSize(os.Stdout, 1<<20)
 	defer out.Flush()
@@ -1269,6 +1301,9 @@ func gen(seed uint64, tier string) {
 			emit(out, "edge:?", g.tol, geom.MultiPolygon{a1, b1}, geom.MultiPolygon{b1, a1})
 			emit(out, "edge:?", g.tol, geom.MultiLineString{tiny(), tiny()}, geom.MultiLineString{tiny(), tiny()})
 		}
+		if it%500 == 9 {
+			nilCases(out, g)
+		}
 		if it%8 == 4 {
 			g.pinchedCases(out, it/8)
 		}
@@ -1322,6 +1357,12 @@ func impl() {
 				panic("missing |")
 			}
 			b := p.Geom()
+			if strings.HasPrefix(tag, "nilm") {
+				// nil interface members / operands: one plain call per direction, panics reported
+				r1 = res(func() bool { return a.Similar(b, tol) })
+				r2 = res(func() bool { return b.Similar(a, tol) })
+				return
+			}
 			a0, b0 := clone(a), clone(b)
 			r1, r2, lay = evalAll(a, b, tol)
 			if strings.HasPrefix(tag, "conc-") && lay == "" && len(r1) == 1 && len(r2) == 1 {
